@@ -281,9 +281,14 @@ impl Disconnect {
         length
     }
 
+    /// the two-byte form `e0 00`: normal disconnection without properties
+    fn is_plain(&self) -> bool {
+        self.reason_code == DisconnectReasonCode::NormalDisconnection && self.properties.is_none()
+    }
+
     pub fn size(&self) -> usize {
         let len = self.len();
-        if len == 2 {
+        if self.is_plain() {
             return len;
         }
 
@@ -325,7 +330,7 @@ impl Disconnect {
 
         let length = self.len();
 
-        if length == 2 {
+        if self.is_plain() {
             buffer.put_u8(0x00);
             return Ok(length);
         }
